@@ -31,6 +31,9 @@ ENTRIES = [
     M("H-gae-mask-helper-broken", "C03", "C03", (RB, "        next_non_terminals = 1.0 - self.dones.astype(float)", "        next_non_terminals = self._continuing()"), (RB, "    def compute_returns_and_advantages(", "    def _continuing(self):\n        return self.dones.astype(float)\n\n    def compute_returns_and_advantages(")),
     V("H-v-dqn-mask-helper", "C07", (DQN, "        not_terminal = (~batch.dones | batch.timeouts).astype(float)", "        not_terminal = _bootstrap_mask(batch)"), (DQN, "class DQNState[", "def _bootstrap_mask(batch):\n    return (~batch.dones | batch.timeouts).astype(float)\n\n\nclass DQNState[")),
     M("H-dqn-mask-helper-broken", "C07", "C07", (DQN, "        not_terminal = (~batch.dones | batch.timeouts).astype(float)", "        not_terminal = _bootstrap_mask(batch)"), (DQN, "class DQNState[", "def _bootstrap_mask(batch):\n    return (~batch.dones).astype(float)\n\n\nclass DQNState[")),
+    V("S-v-gae-static-split-same", "C03", (RB, "        next_non_terminals = 1.0 - self.dones.astype(float)", "        if self.dones.ndim == 1:\n            next_non_terminals = 1.0 - self.dones.astype(float)\n        else:\n            next_non_terminals = 1.0 - self.dones.astype(float)")),
+    M("S-gae-static-split-wrong-branch", "C03", "C03", (RB, "        next_non_terminals = 1.0 - self.dones.astype(float)", "        if self.dones.ndim == 1:\n            next_non_terminals = 1.0 - self.dones.astype(float)\n        else:\n            next_non_terminals = jnp.ones_like(self.dones, dtype=float)")),
+    M("S-dqn-loss-static-split", "C07", "C07", (DQN, "        not_terminal = (~batch.dones | batch.timeouts).astype(float)", "        if gamma == 1.0:\n            not_terminal = jnp.ones_like(batch.rewards)\n        else:\n            not_terminal = (~batch.dones | batch.timeouts).astype(float)")),
     M("C03-disc-nomask", "C03", "C03.3", (RB, "discounts = gamma * gae_lambda * next_non_terminals", "discounts = gamma * gae_lambda")),
     M("C03-boot-nomask", "C03", "C03.3", (RB, "gamma * next_values * next_non_terminals - self.values", "gamma * next_values - self.values")),
     M("C03-forward", "C03", "C03.1", (RB, "(deltas, discounts), reverse=True", "(deltas, discounts), reverse=False")),
